@@ -767,12 +767,14 @@ theorem good_workerCancelled {cap : Cap} {L R : Bool} (p : Pool) (t : Nat) (tk :
 
 /-- the awaited future completed and the worker goes on to its next suspension point: nothing the invariants talk about
 changes (the task is in phase `inWorker` before and after) -/
-theorem good_workerNext {cap : Cap} {L R : Bool} (p : Pool) (t : Nat) (hg : Good cap L R p) (s : SoftP) (hc : p.Cur t s)
+theorem good_workerNext {cap : Cap} {L R : Bool} (p : Pool) (t : Nat) (tk : PTask) (hg : Good cap L R p) (s : SoftP) (hc : p.Cur t s)
     (hw : InWork s) (hnc : t ∉ p.cancelledR) (hph : s.phase = .inWorker) :
-    Good cap L R (p.workerNext t) := by
+    Good cap L R (p.workerNext t tk) := by
   unfold workerNext
-  have t1 : Tame p ((p.logEv (Ev.next t)).modTask t fun k => { k with awaitsLeft := k.awaitsLeft - 1 }) :=
-    (tame_logEv p (Ev.next t)).trans (tame_modTask _ t _)
+  -- the user code between the two awaits is tame like every other user code (it never moves a slot)
+  have t1 : Tame p (((p.logEv (Ev.next t)).modTask t fun k => { k with awaitsLeft := k.awaitsLeft - 1 }).runHooks tk.req
+      (p.reqOf tk).hooks.next) :=
+    ((tame_logEv p (Ev.next t)).trans (tame_modTask _ t _)).trans (tame_runHooks _ _ _)
   have hs : s.setPhase .inWorker = s := by rw [← hph]; rfl
   refine (good_suspend _ t .inWorker (t1.good hg) s (t1.cur hc) (fun _ => hw.rel) (fun h => ?_) ?_ hw.nf).1
   · rw [t1.can] at h; exact absurd h hnc
@@ -792,7 +794,7 @@ theorem good_stepInWorker {cap : Cap} {L R : Bool} (p : Pool) (t : Nat) (tk : PT
     exact hni (by rw [← hs] at hph; exact hph)
   · split
     · split
-      · refine good_workerNext p t hg s hc hw ?_ hph
+      · refine good_workerNext p t tk hg s hc hw ?_ hph
         intro hmem
         obtain ⟨x, hx, hs⟩ := hc
         obtain ⟨y, hy, _, _, hni⟩ := hg.reg.can t hmem
